@@ -1,7 +1,180 @@
-from ..model import AnalysisError
+"""C10 - work is never stranded: nodes take input and deliver output without delay (partial).
+
+  R1 reservation-token typestate: every token a node process creates is used or cancelled exactly once
+     on every non-raising path (to the loop back-edge / return);
+  R2 cancel loops are complete: `for t in L: [if t is not chosen:] store.reserve_X_cancel(t)`;
+  R3 the only timed waits of a node process are its set-up time, its inter-arrival / processing delay;
+     every other suspension is a slot request/release, a token wait, or waiting for its own push process;
+  R4 the Sink waits only on its in-edge tokens.
+"""
+from __future__ import annotations
+
+import ast
+
+from .. import nodewalk, paths, typestate
+from ..model import AnalysisError, Project
+from ..report import Result
+from .common import site, src, status_str
+
 PROP = 'C10'
 LEVEL = 'other'
 
 
-def run(p, tier):
-    raise AnalysisError('rule module for C10 not implemented yet (fail closed)')
+def run(p: Project, tier: str) -> Result:
+    r = Result(PROP)
+    r.explanation = ('Reservation-token typestate over every node process: used xor cancelled exactly once on every path; cancel '
+                     'loops complete; no stray timed waits. The instant-by-instant "could have acted" observer is not decided.')
+    r.rule('C10.R1', 'every reservation token is used or cancelled exactly once on every non-raising path', 20)
+    r.rule('C10.R2', 'every cancel loop cancels all tokens but the chosen one', 8)
+    r.rule('C10.R3', 'timed waits in node processes are only set-up / inter-arrival / processing delays; other suspensions are token, slot or push waits', 30)
+    r.rule('C10.R4', 'the Sink suspends only on its in-edge reservation tokens', 1)
+    r.not_decided = ['the per-instant observer "a node that could act did act" (needs every same-instant ordering)',
+                     'store-side wake-ups are C04']
+    r.assumptions = ['attribute-held token lists (self.in_edge_events ...) are written only by the process that reads them']
+    ws = nodewalk.walks(p)
+    for w in ws:
+        r.paths += w.npaths
+        for root, ps in w.roots.items():
+            fi = w.root_funcs[root]
+            r.analysed_functions.add(fi.key)
+            check_tokens(r, w, root, fi, ps)
+            check_waits(r, w, root, fi, ps)
+    return r
+
+
+def check_tokens(r, w, root, fi, ps):
+    tok_sites = {}
+    loop_sites = {}
+    for pa in ps:
+        if pa.raises or pa.status == 'loopcut':
+            continue
+        rep = typestate.analyse_tokens(pa)
+        issues = typestate.token_end_issues(rep)
+        bad_events = {}
+        for ev, msg in issues:
+            bad_events.setdefault(id(ev), (ev, msg))
+        for t in rep.toks:
+            e = t.ev
+            key = site(e.fi, e.node, f'token-list:{e.name}' if t.is_list else f'token:{e.recv}.{e.name}')
+            rec = tok_sites.setdefault(key, {'ok': True, 'e': e, 'pa': pa, 'msg': ''})
+            if id(e) in bad_events and rec['ok']:
+                rec.update(ok=False, pa=pa, msg=bad_events[id(e)][1])
+        for ev, msg in issues:
+            if ev.kind in ('pcall',) and ev.name in ('reserve_put', 'reserve_get'):
+                continue
+            # problems attached to other events (use with a yield value, wrong pop, ...)
+            key = site(ev.fi, ev.d.get('node'), f'token-use:{ev.kind}') if ev.d.get('node') is not None else f'{ev.fi.key}::token-use@{ev.kind}'
+            rec = tok_sites.setdefault(key, {'ok': True, 'e': ev, 'pa': pa, 'msg': ''})
+            if rec['ok']:
+                rec.update(ok=False, pa=pa, msg=msg)
+        for e in pa.events:
+            if e.kind == 'cancel_loop':
+                key = site(e.fi, e.node, 'cancel-loop', same=lambda n: isinstance(n, ast.For))
+                rec = loop_sites.setdefault(key, {'ok': True, 'e': e, 'pa': pa, 'msg': ''})
+                good = e.guard == 'except' or (e.guard == 'all')
+                if e.guard == 'all':
+                    # acceptable only if the chosen token was removed from the list before (or nothing was chosen)
+                    removed = any(x.kind == 'lop' and x.op == 'remove' and x.d.get('listval') == e.iter_val for x in pa.events[:pa.events.index(e)])
+                    chosen = any(x.kind == 'lookup' and x.outcome == 'found' and x.d.get('src_val') == e.iter_val for x in pa.events[:pa.events.index(e)])
+                    good = removed or not chosen
+                if not good and rec['ok']:
+                    rec.update(ok=False, pa=pa, msg=f'cancel loop over `{e.iter}` has guard kind `{e.guard}`: it does not cancel exactly the tokens not chosen')
+                if not e.recv.endswith('.resourcename') and rec['ok']:
+                    rec.update(ok=False, pa=pa, msg=f'cancellation goes to `{e.recv}`, not to the store that issued the token (`<token>.resourcename`)')
+    for key, rec in sorted(tok_sites.items()):
+        e = rec['e']
+        if rec['ok']:
+            r.ok('C10.R1', key, 'used or cancelled exactly once on every explored path', src(e.fi.module), e.line)
+        else:
+            r.fail('C10.R1', key, rec['msg'], src(e.fi.module), e.line, rec['pa'].describe())
+    for key, rec in sorted(loop_sites.items()):
+        e = rec['e']
+        if rec['ok']:
+            r.ok('C10.R2', key, f'cancels every token except the chosen one (guard: {e.guard})', src(e.fi.module), e.line)
+        else:
+            r.fail('C10.R2', key, rec['msg'], src(e.fi.module), e.line, rec['pa'].describe())
+
+
+ALLOWED_TIMEOUT_SELF = {'node_setup_time'}
+
+
+def timeout_arg_ok(pa, e, fi) -> (bool, str):
+    """argument of the timeout behind a `yield timeout(...)` event"""
+    v = e.value
+    arg = None
+    for x in pa.events:
+        if x.kind == 'xcall' and x.d.get('result') == v:
+            arg = x.args[0] if x.args else None
+    if arg is None:
+        return False, 'timeout argument unknown'
+    if arg[0] == 'self' and arg[1] in ALLOWED_TIMEOUT_SELF:
+        return True, 'set-up time'
+    if arg[0] == 'param':
+        return True, f'delay handed over by the spawner ({arg[1]})'
+    if arg[0] == 'sym' and arg[1].startswith('call:get_delay'):
+        return True, 'drawn delay'
+    return False, f'timed wait on {arg}'
+
+
+def check_waits(r, w, root, fi, ps):
+    sites = {}
+    is_sink = w.ci.name == 'Sink'
+    sink_bad = None
+    for pa in ps:
+        if pa.raises:
+            continue
+        rep = typestate.analyse_tokens(pa)
+        tokvals = {t.value for t in rep.toks}
+        for e in pa.events:
+            if e.kind != 'yield':
+                continue
+            node = e.d.get('node')
+            key = site(e.fi, node, 'yield', same=lambda n: isinstance(n, (ast.Yield, ast.YieldFrom)))
+            ok, why = classify_wait(pa, e, fi, tokvals)
+            rec = sites.setdefault(key, {'ok': True, 'e': e, 'pa': pa, 'why': why})
+            if not ok and rec['ok']:
+                rec.update(ok=False, pa=pa, why=why)
+            if is_sink and ok and not why.startswith(('token', 'result of the get')):
+                sink_bad = (e, pa, why)
+    for key, rec in sorted(sites.items()):
+        e = rec['e']
+        if rec['ok']:
+            r.ok('C10.R3', key, rec['why'], src(e.fi.module), e.line)
+        else:
+            r.fail('C10.R3', key, f'node process suspends on something that is neither a token, a slot, its push process nor its own delay: {rec["why"]}',
+                   src(e.fi.module), e.line, rec['pa'].describe())
+    if is_sink and root == 'behaviour':
+        key = f'{fi.key}::sink-waits'
+        if sink_bad:
+            e, pa, why = sink_bad
+            r.fail('C10.R4', key, f'the Sink waits on `{e.text}` ({why}) instead of taking the available item at once', src(fi.module), e.line, pa.describe())
+        else:
+            r.ok('C10.R4', key, 'only in-edge token waits', src(fi.module), fi.node.lineno)
+
+
+def classify_wait(pa, e, fi, tokvals):
+    c = e.cls
+    v = e.value
+    if c == 'timeout':
+        return timeout_arg_ok(pa, e, fi)
+    if c in ('request', 'release'):
+        return True, f'worker slot {c}'
+    if c == 'process':
+        return True, 'waits for its own push process'
+    if v in tokvals:
+        return True, 'token wait'
+    if v is not None and v[0] == 'presult' and v[1] in ('request', 'release'):
+        return True, f'worker slot {v[1]}'
+    if v is not None and v[0] == 'presult' and v[1] in ('put', 'get'):
+        return True, 'result of the get/put call (legacy Process branch)'
+    if v is not None and v[0] == 'callres' and v[1].endswith('any_of'):
+        # any_of over a token list / local token list
+        for x in pa.events:
+            if x.kind == 'xcall' and x.d.get('result') == v and x.args:
+                a = x.args[0]
+                if a in tokvals or a[0] in ('locallist', 'tokenlist'):
+                    return True, 'token wait (any_of)'
+        return False, 'any_of over something that is not a token list'
+    if v is not None and v[0] == 'proc':
+        return True, 'waits for its own push process'
+    return False, f'`{e.text}`'
